@@ -605,6 +605,8 @@ func scopesC11(thorough bool) []scope {
 			{Name: "L<=2 N=4 <=1 preemption", Targets: 4, Streams: c11Streams(4, 2), Bound: 1},
 			{Name: "L<=1 N=5 <=1 preemption", Targets: 5, Streams: c11Streams(5, 1), Bound: 1},
 			{Name: "L=4 N=3 <=1 preemption", Targets: 3, Streams: c11Streams(3, 4), Bound: 1},
+			{Name: "L=40 N=1 <=2 deviations", Targets: 1, Streams: longStreams(1, 40), Bound: 2, Strict: true},
+			{Name: "L=40 N=3 <=1 deviation", Targets: 3, Streams: longStreams(3, 40), Bound: 1, Strict: true},
 		}
 	}
 	return []scope{
@@ -615,7 +617,33 @@ func scopesC11(thorough bool) []scope {
 		{Name: "L<=2 N=3 <=2 deviations", Targets: 3, Streams: c11Streams(3, 2), Bound: 2, Strict: true},
 		{Name: "L<=2 N=4 <=1 deviation", Targets: 4, Streams: c11Streams(4, 2), Bound: 1, Strict: true},
 		{Name: "L<=1 N=5 <=1 deviation", Targets: 5, Streams: c11Streams(5, 1), Bound: 1, Strict: true},
+		// long streams (a target lagging behind by more than a typical buffer), few deviations
+		{Name: "L=20 N=1 <=1 deviation", Targets: 1, Streams: longStreams(1, 20), Bound: 1, Strict: true},
+		{Name: "L=20 N=2 default schedule", Targets: 2, Streams: longStreams(2, 20), Bound: 0, Strict: true},
 	}
+}
+
+// longStreams: streams of exactly l features: all non-polygons, and polygons alternately kept by the first target only / by all
+func longStreams(n, l int) [][]featSpec {
+	mk := func(first, rest int) partSpec {
+		v := make(partSpec, n)
+		for i := range v {
+			v[i] = rest
+		}
+		v[0] = first
+		return v
+	}
+	a := make([]featSpec, l)
+	b := make([]featSpec, l)
+	for i := range a {
+		a[i] = featSpec{Kind: "N"}
+		if i%2 == 0 {
+			b[i] = featSpec{Kind: "P", Parts: []partSpec{mk(1, 0)}}
+		} else {
+			b[i] = featSpec{Kind: "P", Parts: []partSpec{mk(1, 1)}}
+		}
+	}
+	return [][]featSpec{a, b}
 }
 
 // ---------- driver ----------
